@@ -5,6 +5,7 @@ CONSTANT ShapeBudget = 2
 CONSTANT MaxListLen = 2
 CONSTANT VarModes = {"supplied", "default", "both"}
 CONSTANT Styles = {"anon", "namedAlias"}
+CONSTANT StepAliases = {"none", "fresh", "sibling"}
 INIT Init
 NEXT Next
 INVARIANT GenSound
